@@ -113,6 +113,11 @@ class Molecule(BigSMILESbase):
 
             stochastic_text = stochastic_text[end_pos:].strip()
 
+        # A lone '.' after the last stochastic object is the mixture separator
+        # written without extension (see Mixture.generate_string), not a token.
+        if len(self._elements) > 0 and stochastic_text == ".":
+            stochastic_text = ""
+
         if len(stochastic_text) > 0:
             token = SmilesToken(stochastic_text, 0, res_id_prefix + res_id_counter)
             if len(self._elements) > 0 and len(token.bond_descriptors) == 0:
